@@ -145,6 +145,41 @@ fn check(plan: &Plan, out: &RunOut) -> CheckOut {
             co.violate("C10", "identity_mismatch", "C10|identity_mismatch|srv_api".into(), "LongTermKey::srv_value() differs from SHA-512(0xff || pk)[0..32]".into());
         }
     }
+    // library view of the certificates: responder instances created from one long-term key, in any
+    // order and number (the server creates one IETF and one classic online key per worker, in that
+    // order; an embedding program need not)
+    {
+        dsim::install(dsim::World::new(plan.world.to_cfg(), dsim::Tape::replay(vec![])));
+        let made = std::panic::catch_unwind(|| {
+            let mut k = roughenough::key::LongTermKey::new(&seed);
+            let mut rng = Rng::derive(plan.seed, "c10-cert-sequence");
+            let mut out = Vec::new();
+            for _ in 0..2 + rng.below(5) {
+                let ietf = rng.chance(1, 2);
+                let version = if ietf { roughenough::version::Version::RfcDraft13 } else { roughenough::version::Version::Google };
+                let online = roughenough::key::OnlineKey::new();
+                out.push((ietf, k.make_cert(&version, &online).encode().unwrap_or_default()));
+            }
+            out
+        });
+        let _ = dsim::take();
+        match made {
+            Err(_) => co.violate("C10", "task_panicked", "C10|cert_sequence_panicked".into(), "creating certificates for a sequence of online keys from one long-term key panicked".into()),
+            Ok(certs) => {
+                let order: String = certs.iter().map(|(i, _)| if *i { 'I' } else { 'C' }).collect();
+                for (n, (ietf, cert)) in certs.iter().enumerate() {
+                    let (own, other) = if *ietf { (r::Proto::Ietf, r::Proto::Classic) } else { (r::Proto::Classic, r::Proto::Ietf) };
+                    if !r::cert_verifies(cert, &pk, own) {
+                        co.violate("C10", "cert_sig_invalid", format!("C10|cert_sig_invalid|proto={}|library_sequence", own.name()), format!("certificate {} of the sequence {} (C = classic, I = IETF) made from one long-term key does not verify under the seed's key with its own delegation context", n, order));
+                    }
+                    if r::cert_verifies(cert, &pk, other) {
+                        co.violate("C10", "cert_cross_context", format!("C10|cert_cross_context|proto={}|library_sequence", own.name()), format!("certificate {} of the sequence {} verifies under the other protocol's delegation context", n, order));
+                    }
+                }
+                co.probe("library_cert_sequence");
+            }
+        }
+    }
     // every incarnation announces the same key
     let bs = boots(out);
     for (i, b) in bs.iter().enumerate() {
